@@ -10,7 +10,7 @@ sys.path.insert(0, "lib")
 import vcheck
 import props
 vcheck.regen_generated(vcheck.all_generated())
-vcheck.build_go(sorted(set(P["binary"] for P in props.PROPS.values())))
+vcheck.build_go(sorted(set(b for P in props.PROPS.values() for b in vcheck.binaries_of(P))))
 vcheck.ensure_makefile()
 ok, log = vcheck.make_targets([], timeout=7200)
 print(log[-3000:])
